@@ -108,7 +108,9 @@ def kernel_tree(draw, d_in, batch, depth=2, names=None, allow_ad=True, psd_only=
              "p": {"outputscale": draw(arr(batch, pos(0.1, 5.0)))}}
     else:
         parts = [draw(kernel_tree(d_in, batch, depth - 1, names, allow_ad, psd_only)) for _ in range(draw(st.integers(2, 3)))]
-        if kind == "add":
+        if kind in ("add", "prod"):
+            # (the same holds for products: MulLinearOperator of two root operators, scaled by a batch of constants, hits
+            # `if other > 0` on a multi-element tensor in the dependency)
             # A sum of two bare LinearKernels is a sum of two low-rank root operators, which the dependency
             # (RootLinearOperator.__add__ -> add_low_rank) evaluates through an SVD that fails on rank-deficient data
             # (rows of zeros, duplicates).  Keep at most one bare linear summand; further ones become Poly1 (dense).
